@@ -1235,7 +1235,7 @@ func (g *Gen) originTx(mode int, bridge bool) *basetypes.OriginTx {
 	if len(g.origins) > 0 && g.R.Chance(0.35) {
 		o := g.origins[g.R.Intn(len(g.origins))]
 		ot := &basetypes.OriginTx{Id: o.id, Source: o.source, Contract: o.contract}
-		if g.R.Chance(0.3) {
+		if g.R.Chance(0.3) && !(g.P.AvoidKnown && g.W.Property == "C13") {
 			// letter-case variant of the source
 			if ot.Source == strings.ToLower(ot.Source) {
 				ot.Source = strings.ToUpper(ot.Source[:1]) + ot.Source[1:]
@@ -1249,6 +1249,9 @@ func (g *Gen) originTx(mode int, bridge bool) *basetypes.OriginTx {
 		return ot
 	}
 	o := originSeed{id: ethTxHash(g.R.Intn(12)), source: Pick(g.R, chainSpellings)}
+	if g.P.AvoidKnown && g.W.Property == "C13" {
+		o.source = strings.ToLower(o.source) // one spelling per chain: stays clear of the open known finding
+	}
 	if bridge || g.R.Chance(0.4) {
 		o.contract = ethAddr(g.R.Intn(4))
 	}
